@@ -13,7 +13,7 @@ patch = open(f"{dst}/patch.diff").read()
 files = sorted(set(re.findall(r"^\+\+\+ b/(\S+)", patch, flags=re.M)))
 notes = open(f"{dst}/notes.md").read()
 meta = {
-    "id": f"{prop}_{x}", "property": prop, "wave": 3, "files_changed": files,
+    "id": f"{prop}_{x}", "property": prop, "wave": int(os.environ.get("SEED_WAVE", "3")), "files_changed": files,
     "needs_to_manifest": notes[:1500],
     "confirmed_by_me": {"scratch_worktree": "git worktree of /repo under /tmp (removed afterwards)", "patch_applies": True,
                         "demo_on_clean_tree_exit": "0", "demo_on_mutated_tree_exit": "1",
